@@ -2,6 +2,332 @@
 
 package mimetype
 
-func (g *vfGen) runMore7(slice string) bool { return false }
+import (
+	"fmt"
+	"strings"
 
-func vfExecMore7(f []string, op string) (string, bool) { return "", false }
+	vjson2 "github.com/gabriel-vasile/mimetype/internal/json"
+	"github.com/gabriel-vasile/mimetype/internal/magic"
+)
+
+var _ = vjson2.Parse
+
+func vfBit(b bool) string {
+	if b {
+		return "T"
+	}
+	return "F"
+}
+
+func vfExecMore7(f []string, op string) (string, bool) {
+	switch f[0] {
+	case "jdoc": // jdoc hex : verdict of magic.JSON on the whole document and on every cut
+		doc := vfUnhex(f[1])
+		var sb strings.Builder
+		whole, _ := vfExact(doc)
+		sb.WriteString(vfSafeDet(magic.JSON, whole, 0)[:1])
+		sb.WriteString(vfSafeDet(magic.JSON, whole, uint32(len(doc)+1))[:1])
+		sb.WriteByte(' ')
+		for k := 1; k <= len(doc); k++ {
+			c, _ := vfExact(doc[:k])
+			sb.WriteString(vfSafeDet(magic.JSON, c, uint32(k))[:1])
+		}
+		return fmt.Sprintf("%s => %s", op, sb.String()), true
+	case "jany": // jany hex : whole-mode and truncated-mode verdicts of JSON / NdJSON
+		raw, _ := vfExact(vfUnhex(f[1]))
+		n := uint32(len(raw))
+		return fmt.Sprintf("%s => %s%s", op, vfSafeDet(magic.JSON, raw, 0)[:1], vfSafeDet(magic.JSON, raw, n)[:1]), true
+	case "jsub": // jsub hex lim : Detect leaf for JSON sub-typing
+		data := vfUnhex(f[1])
+		var lim uint32
+		fmt.Sscan(f[2], &lim)
+		SetLimit(lim)
+		in, _ := vfExact(data)
+		m := Detect(in)
+		return fmt.Sprintf("%s => %s", op, vfChain(m)), true
+	}
+	return vfExecMore8(f, op)
+}
+
+func (g *vfGen) runMore7(slice string) bool {
+	switch slice {
+	case "C08":
+		g.genC08()
+	case "C09":
+		g.genC09()
+	case "C10":
+		g.genC10()
+	default:
+		return g.runMore8(slice)
+	}
+	return true
+}
+
+// ---- valid JSON generation: every token spelling, random layout ----
+
+func (g *vfGen) jws() string {
+	switch g.rng.Intn(6) {
+	case 0:
+		return " "
+	case 1:
+		return "\n  "
+	case 2:
+		return "\t"
+	case 3:
+		return "\r\n"
+	}
+	return ""
+}
+
+func (g *vfGen) jstring() string {
+	var sb strings.Builder
+	sb.WriteByte('"')
+	n := g.rng.Intn(8)
+	for i := 0; i < n; i++ {
+		switch g.rng.Intn(12) {
+		case 0:
+			sb.WriteString([]string{",", "]", "}", "[", "{", ":"}[g.rng.Intn(6)])
+		case 1:
+			sb.WriteString([]string{"\\\"", "\\\\", "\\/", "\\b", "\\f", "\\n", "\\r", "\\t"}[g.rng.Intn(8)])
+		case 2:
+			sb.WriteString(fmt.Sprintf("\\u%04x", g.rng.Intn(65536)))
+		case 3:
+			sb.WriteString(fmt.Sprintf("\\u%04X", g.rng.Intn(65536)))
+		case 4:
+			sb.WriteString("\xc3\xa9")
+		case 5:
+			sb.WriteString(" ")
+		default:
+			sb.WriteByte("abcdefghijklmnopqrstuvwxyzABC0123456789-_."[g.rng.Intn(42)])
+		}
+	}
+	sb.WriteByte('"')
+	return sb.String()
+}
+
+func (g *vfGen) jnumber() string {
+	s := ""
+	if g.rng.Intn(3) == 0 {
+		s = "-"
+	}
+	if g.rng.Intn(4) == 0 {
+		s += "0"
+	} else {
+		s += fmt.Sprintf("%d", 1+g.rng.Intn(99999))
+	}
+	if g.rng.Intn(3) == 0 {
+		s += fmt.Sprintf(".%d", g.rng.Intn(1000))
+	}
+	if g.rng.Intn(3) == 0 {
+		s += []string{"e", "E"}[g.rng.Intn(2)] + []string{"", "+", "-"}[g.rng.Intn(3)] + fmt.Sprintf("%d", g.rng.Intn(300))
+	}
+	return s
+}
+
+func (g *vfGen) jvalue(depth int) string {
+	k := g.rng.Intn(10)
+	if depth <= 0 && k >= 6 {
+		k = g.rng.Intn(6)
+	}
+	switch k {
+	case 0:
+		return "true"
+	case 1:
+		return "false"
+	case 2:
+		return "null"
+	case 3, 4:
+		return g.jnumber()
+	case 5:
+		return g.jstring()
+	case 6, 7:
+		return g.jarray(depth - 1)
+	}
+	return g.jobject(depth - 1)
+}
+
+func (g *vfGen) jarray(depth int) string {
+	n := g.rng.Intn(4)
+	var parts []string
+	for i := 0; i < n; i++ {
+		parts = append(parts, g.jws()+g.jvalue(depth)+g.jws())
+	}
+	if n == 0 {
+		return "[" + g.jws() + "]"
+	}
+	return "[" + strings.Join(parts, ",") + "]"
+}
+
+func (g *vfGen) jobject(depth int) string {
+	n := g.rng.Intn(4)
+	var parts []string
+	for i := 0; i < n; i++ {
+		parts = append(parts, g.jws()+g.jstring()+g.jws()+":"+g.jws()+g.jvalue(depth)+g.jws())
+	}
+	if n == 0 {
+		return "{" + g.jws() + "}"
+	}
+	return "{" + strings.Join(parts, ",") + "}"
+}
+
+func (g *vfGen) jdocument() string {
+	d := 1 + g.rng.Intn(4)
+	var body string
+	if g.rng.Intn(2) == 0 {
+		body = g.jarray(d)
+	} else {
+		body = g.jobject(d)
+	}
+	return g.jws() + body + g.jws()
+}
+
+func (g *vfGen) genC08() {
+	n := g.pick(400, 12000)
+	for i := 0; i < n; i++ {
+		d := g.jdocument()
+		if len(d) > 400 {
+			continue
+		}
+		g.emit(vfOp("jdoc", []byte(d)))
+		if i%5 == 0 {
+			// through Detect as well, at limits around the document
+			for _, l := range []int{0, len(d) / 2, len(d) - 1, len(d), len(d) + 1} {
+				if l >= 0 {
+					g.emit(vfOp("walk", []byte(d), l))
+				}
+			}
+		}
+	}
+	// deep nesting up to and around the cap
+	for _, depth := range []int{10, 100, 4095, 4096, 4097} {
+		d := strings.Repeat("[", depth) + strings.Repeat("]", depth)
+		g.emit(vfOp("jany", []byte(d)))
+	}
+	// the witnesses of the nested-failure defect
+	for _, w := range []string{`[",abc"]`, `["]x"]`, `{"a":"}b"}`, `[[",", "]"]]`} {
+		g.emit(vfOp("jdoc", []byte(w)))
+	}
+}
+
+func (g *vfGen) genC09() {
+	// exhaustive strings over a JSON-relevant alphabet
+	alpha := []byte{'{', '}', '[', ']', '"', ':', ',', ' ', '1', 'e', '-', '.', 't', '\\', 0x0C, 'u'}
+	maxLen := g.pick(4, 5)
+	var rec func(cur []byte)
+	rec = func(cur []byte) {
+		g.emit(vfOp("jany", cur))
+		if len(cur) == maxLen {
+			return
+		}
+		for _, a := range alpha {
+			rec(append(append([]byte{}, cur...), a))
+		}
+	}
+	rec(nil)
+	// mutations of valid documents
+	n := g.pick(1500, 60000)
+	for i := 0; i < n; i++ {
+		d := []byte(g.jdocument())
+		if len(d) == 0 || len(d) > 300 {
+			continue
+		}
+		for k := 0; k < 1+g.rng.Intn(3); k++ {
+			structural := []byte("{}[]\",: 1e-.tfn\\")
+			switch g.rng.Intn(4) {
+			case 0:
+				j := g.rng.Intn(len(d))
+				d = append(d[:j], d[j+1:]...)
+			case 1:
+				j := g.rng.Intn(len(d) + 1)
+				d = append(d[:j], append([]byte{structural[g.rng.Intn(len(structural))]}, d[j:]...)...)
+			case 2:
+				d[g.rng.Intn(len(d))] = structural[g.rng.Intn(len(structural))]
+			default:
+				if len(d) > 1 {
+					j := g.rng.Intn(len(d) - 1)
+					d[j], d[j+1] = d[j+1], d[j]
+				}
+			}
+			if len(d) == 0 {
+				break
+			}
+		}
+		g.emit(vfOp("jany", d))
+		if i%20 == 0 {
+			g.emit(vfOp("walk", d, 0))
+			g.emit(vfOp("walk", d, len(d)))
+		}
+	}
+	for _, w := range []string{"[{]", `{"a":[}`, "[", "{", " [", "[[", `{"a":`, `[1,]`, `[01]`, `[1.e5]`, `[,]`, `{,}`, `[1 2]`, `{"a" 1}`} {
+		g.emit(vfOp("jany", []byte(w)))
+	}
+}
+
+func (g *vfGen) genC10() {
+	geo := []string{"Feature", "FeatureCollection", "Point", "LineString", "Polygon", "MultiPoint", "MultiLineString", "MultiPolygon", "GeometryCollection", "feature", "Circle", ""}
+	sib := func() string {
+		switch g.rng.Intn(9) {
+		case 0:
+			return `"accessors":[1]`
+		case 1:
+			return `"list":[]`
+		case 2:
+			return `"nested":{"type":"Feature","log":{"version":1},"asset":{"version":"2.0"}}`
+		case 3:
+			return `"arr":[{"type":"Point"},[1,[2]],"x"]`
+		case 4:
+			return `"types":"Feature"`
+		case 5:
+			return `"n":` + g.jnumber()
+		case 6:
+			return `"s":` + g.jstring()
+		case 7:
+			return `"deep":[[[{"asset":{"version":"1.0"}}]]]`
+		}
+		return `"k` + fmt.Sprint(g.rng.Intn(100)) + `":` + g.jvalue(2)
+	}
+	deciding := func() (string, string) {
+		switch g.rng.Intn(8) {
+		case 0, 1:
+			return fmt.Sprintf(`"type":%s"%s"%s`, g.jws(), geo[g.rng.Intn(len(geo))], g.jws()), "geo"
+		case 2:
+			return `"log":{` + []string{`"version":"1.2"`, `"creator":{}`, `"entries":[]`, `"pages":[]`, `"Version":1`}[g.rng.Intn(5)] + `}`, "har"
+		case 3:
+			return `"log":{"x":[1,2],"entries":[{"a":[1]}]}`, "har"
+		case 4:
+			return `"asset":{"version":"` + []string{"1.0", "2.0", "3.0", "2"}[g.rng.Intn(4)] + `"}`, "gltf"
+		case 5:
+			return `"asset":{"generator":"g","copyright":[1],"version":"2.0"}`, "gltf"
+		case 6:
+			return `"type":` + []string{`["Feature"]`, `{"type":"Feature"}`, `1`, `null`}[g.rng.Intn(4)], "none"
+		}
+		return sib(), "none"
+	}
+	n := g.pick(1500, 60000)
+	for i := 0; i < n; i++ {
+		k := g.rng.Intn(5)
+		var ms []string
+		for j := 0; j < k; j++ {
+			ms = append(ms, sib())
+		}
+		d1, _ := deciding()
+		ms = append(ms, d1)
+		if g.rng.Intn(4) == 0 {
+			d2, _ := deciding()
+			ms = append(ms, d2)
+		}
+		g.rng.Shuffle(len(ms), func(a, b int) { ms[a], ms[b] = ms[b], ms[a] })
+		for j := range ms {
+			ms[j] = g.jws() + ms[j] + g.jws()
+		}
+		doc := g.jws() + "{" + strings.Join(ms, ",") + "}" + g.jws()
+		g.emit(vfOp("jsub", []byte(doc), 0))
+		if i%4 == 0 {
+			g.emit(vfOp("jsub", []byte(doc), len(doc)+1))
+			g.emit(vfOp("jparse", "geo", []byte(doc)))
+			g.emit(vfOp("jparse", "har", []byte(doc)))
+			g.emit(vfOp("jparse", "gltf", []byte(doc)))
+		}
+	}
+	g.emit(vfOp("jsub", []byte(`{"accessors":[1],"asset":{"version":"2.0"}}`), 0))
+}
